@@ -209,6 +209,7 @@ type BuildOpts struct {
 	// OSRelease: run WITHOUT $DISTRIBUTION, in a private mount namespace where this file is /etc/os-release
 	// (the host auto-detection of pkg/prebuild/os.go); cfg.Dist is then not used
 	OSRelease string
+	EnvDist   string // with OSRelease: the value of $DISTRIBUTION, if any
 }
 
 // RunPrebuild runs the real prebuild binary for cfg in a fresh directory whose
@@ -261,6 +262,9 @@ func (e *Env) RunPrebuild(cfg Cfg, o BuildOpts) *Build {
 			if !strings.HasPrefix(kv, "DISTRIBUTION=") {
 				cmd.Env = append(cmd.Env, kv)
 			}
+		}
+		if o.EnvDist != "" {
+			cmd.Env = append(cmd.Env, "DISTRIBUTION="+o.EnvDist)
 		}
 	}
 	if o.Listing {
